@@ -54,6 +54,22 @@ func genStream(r *gen.Rand, cfg gen.ProgCfg, files map[string]string, maxMerges 
 		planted = append(planted, pl...)
 		if m, ok := doc.(map[string]any); ok {
 			m["id"] = fmt.Sprintf("d%d", i)
+			if r.Chance(0.15) && selfMatchRefs(r, m, map[string]any{"id": m["id"]}) {
+				planted = append(planted, "crossdoc-form-matching-own-document")
+			}
+			if r.Chance(0.08) {
+				// the whole of the document it sits in, selected by pattern and
+				// merged below one of its own keys
+				host := map[string]any{"$merge": map[string]any{"$match": map[string]any{"id": m["id"]}}}
+				if r.Chance(0.5) {
+					host["own"] = 1
+				}
+				if r.Chance(0.3) {
+					host["self_tmpl"] = map[string]any{"n": 1}
+				}
+				m["self_tmpl"] = host
+				planted = append(planted, "whole-own-document-merged-below-a-key")
+			}
 			if i > 0 && r.Chance(0.3) {
 				// cross-document reference into document 0
 				if t0, ok := prevTrees[0].(map[string]any); ok {
@@ -198,12 +214,19 @@ func genStream(r *gen.Rand, cfg gen.ProgCfg, files map[string]string, maxMerges 
 		planted = append(planted, pl...)
 		ext := r.Pick("yaml", "json")
 		if s, ok := gen.StreamText(ext, []any{base}); ok {
+			esc := r.Chance(0.3) // the same documents, every "$" spelled as an escape sequence
+			if esc {
+				s = gen.EscapeDollars(ext, s)
+			}
 			files["f."+ext] = s
 			patch := child.Child(r, wire.Clone(base))
 			if r.Chance(0.5) {
 				patch["$match"] = nil // keep file documents apart from the stream
 			}
 			if s2, ok := gen.StreamText("yaml", []any{patch}); ok {
+				if esc {
+					s2 = gen.EscapeDollars("yaml", s2)
+				}
 				files["f.g.yaml"] = s2
 				op := wire.Op{Op: "MergeFileLayers", Path: "f.g.yaml"}
 				pos := r.Intn(len(merges) + 1)
@@ -215,6 +238,56 @@ func genStream(r *gen.Rand, cfg gen.ProgCfg, files map[string]string, maxMerges 
 		merges = merges[:maxMerges]
 	}
 	return merges, planted
+}
+
+// selfMatchRefs respells same-document references ($merge / $replace with a
+// path) in the cross-document form, with a pattern that selects the very
+// document they sit in: {$match: <pattern>, $path: <path>}.
+func selfMatchRefs(r *gen.Rand, v any, pat map[string]any) bool {
+	changed := false
+	switch x := v.(type) {
+	case map[string]any:
+		for _, k := range gen.SortedKeys(x) {
+			if k == "$merge" || k == "$replace" {
+				var path any
+				switch p := x[k].(type) {
+				case string:
+					if p != "" && !strings.ContainsAny(p, "[{$ ") {
+						path = p
+					}
+				case []any:
+					ok := len(p) > 0
+					for _, e := range p {
+						if _, isStr := e.(string); !isStr {
+							ok = false
+						}
+					}
+					if ok {
+						path = p
+					}
+				}
+				if path != nil && r.Chance(0.6) {
+					if r.Chance(0.7) {
+						x[k] = map[string]any{"$match": wire.Clone(pat), "$path": path}
+					} else {
+						x[k] = []any{wire.Clone(pat), path}
+					}
+					changed = true
+				}
+				continue
+			}
+			if selfMatchRefs(r, x[k], pat) {
+				changed = true
+			}
+		}
+	case []any:
+		for _, e := range x {
+			if selfMatchRefs(r, e, pat) {
+				changed = true
+			}
+		}
+	}
+	return changed
 }
 
 func genC19(r *gen.Rand, maxCalls int) *C19Case {
